@@ -79,6 +79,10 @@ class TracedRace:
 
         self.w.sim.send_hook = hook
         self.w.block_hook = self._on_block
+        self.w.unlocked_access_hook = self._on_unlocked_access
+        self._projecting = 0
+        self._unlocked_budget = 0
+        self.unlocked_preemptions = 0
         self.unprojectable = None
         self.aborted = False
         self.blocked = None  # name of a worker whose actor thread is blocked for good
@@ -172,6 +176,13 @@ class TracedRace:
 
     # ---- projection
     def project(self):
+        self._projecting += 1
+        try:
+            return self._project()
+        finally:
+            self._projecting -= 1
+
+    def _project(self):
         w = self.w
         sim = w.sim
         W = self.scn["W"]
@@ -388,7 +399,11 @@ class TracedRace:
         self.deps[sid] = deps
         w.step(("req", c), service_time=service_time, outcome={"vid": req["n"], "deps": deps, "t": w.clock.time()})
         inst = self.worker(wi)
-        inq = inst.sampler is not None and any(s.request_meta_data.get("vid") == req["n"] for s in list(inst.sampler.q.queue))
+        self._projecting += 1  # the harness' own look at the queue is not an access of the implementation
+        try:
+            inq = inst.sampler is not None and any(s.request_meta_data.get("vid") == req["n"] for s in list(inst.sampler.q.queue))
+        finally:
+            self._projecting -= 1
         if not inq:
             self.dropped.append(sid)
 
@@ -414,6 +429,7 @@ class TracedRace:
             return "Skip", 0
 
     def _do(self, dec, service_time=None, preempt=None):
+        self._unlocked_budget = 2
         w = self.w
         ev, arg = self.decision_event(dec)
         n_cct_before = self._count_cct()
@@ -499,6 +515,21 @@ class TracedRace:
             self.t_report = w.clock.now
         self.events.append({"ev": ev, "arg": arg, "st": st})
         return ev, arg
+
+    def _on_unlocked_access(self, _dq):
+        """A worker's actor thread touches the sampler's deque without holding the queue's mutex: the executor thread may add a
+        sample right now (one request of this worker's clients completes, at most twice per handler)."""
+        if self._projecting or self.w.current_run is not None or self._unlocked_budget <= 0:
+            return
+        name = self.w.clock.current
+        if not name or not str(name).startswith("Worker"):
+            return
+        en = [c for c in sorted(self.w.pending) if self.w.worker_of_client(c) == name]
+        if not en:
+            return
+        self._unlocked_budget -= 1
+        self.unlocked_preemptions += 1
+        self._complete_request(self.w.rnd.choice(en))
 
     def _on_block(self, run):
         """A handler of worker `run.worker_name` waits for its running executor: the executor thread goes on (requests of this
